@@ -15,13 +15,17 @@ import numpy as np
 from .. import core, findlib as fl, gen_find_c02 as g
 
 ATOL = 0.05
+TWO_IMAGES_TAG = "supercell-two-images-one-group"
+ATOLS = [0.05, 0.05, 0.05, 0.05, 0.001, 0.01, 0.2]
 RULE = ("base structures as in C02 (validated planted copies, per-atom perturbation <= atol/16; atol/40 for the hint runs); "
-        "relations: shift by a random vector (|components| <= 2 cell lengths) + fractional wrap; random atom permutation; "
+        "atol drawn from {0.001, 0.01, 0.05, 0.2} per base structure; "
+        "relations: plain call (return_positions_and_quats=False); shift by a random vector (|components| <= 2 cell lengths) + fractional wrap; random atom permutation; "
         "pattern moved by a random rational rotation + translation; ALL hint triples (each entry None or an index) of the "
         "patterns with <= 4 atoms whose given axis points are distinct and whose given orientation point is >= 0.3 A off "
         "the (resolved) axis; 3 other RNG seeds; replication <= 2x1x1 (quick) / <= 2x2x2 (thorough) when every cell width exceeds 2*(diameter+2*atol) (below that two images of one atom can both fit and the relation is mathematically false). Thorough also: "
         "docs/examples/uio66.cif + uio66-linker.cml (24 linkers) and tests/uio66/uio66-triclinic.lmpdat (6 linkers, "
-        "atol 0.2): shift, permutation, pattern motion, reseed, 2x1x1. Non-trivial = the base search reports at least "
+        "atol 0.2): shift, permutation, pattern motion, reseed, 2x1x1. Separate small stream for the KNOWN FINDING (narrow "
+        "cells with two fitting images of one atom: supercell along that cell vector, 3 quick / 20 thorough). Non-trivial = the base search reports at least "
         "one match and the transformation is not the identity.")
 
 HINT_PATTERNS = [p for p in fl.PATTERNS if len(fl.PATTERNS[p][0]) <= 4]
@@ -87,42 +91,7 @@ def widths_ok(base):
 
 # ------------------------------------------------------------------ hints
 
-def valid_hints(ppos, min_off=0.3):
-    """all hint triples (None or index each) whose given axis points are distinct points and whose given orientation
-    point lies off the axis that will be used (for a single given axis point: off the line to EVERY farthest point)"""
-    P = np.array(ppos, dtype=float)
-    n = len(P)
-    d2 = ((P[:, None, :] - P[None, :, :]) ** 2).sum(axis=2)
-    opts = [None] + list(range(n))
-    out = []
-    for h1, h2, ho in itertools.product(opts, opts, opts):
-        if n <= 2 and ho is not None:
-            continue
-        if h1 is not None and h2 is not None:
-            if d2[h1, h2] < 0.25:
-                continue
-            axes = [(h1, h2)]
-        elif h1 is None and h2 is None:
-            m = d2.max()
-            axes = [(i, j) for i in range(n) for j in range(n) if d2[i, j] >= m - 1e-9]
-        else:
-            a = h1 if h1 is not None else h2
-            m = d2[a].max()
-            if m < 0.25:
-                continue
-            axes = [(a, j) for j in range(n) if d2[a, j] >= m - 1e-9]
-        if ho is not None:
-            ok = True
-            for a, b in axes:
-                u = P[b] - P[a]
-                w = P[ho] - P[a]
-                off = np.linalg.norm(np.cross(u, w)) / max(np.linalg.norm(u), 1e-12)
-                if ho in (a, b) or off < min_off:
-                    ok = False
-            if not ok:
-                continue
-        out.append((h1, h2, ho))
-    return out
+valid_hints = g.valid_hints
 
 
 def opoint_unique(ppos, a, b):
@@ -143,7 +112,7 @@ def relation(base, rel, param, base_keys=None):
         base_keys = keys(real_search(base, seed=1))
     if base_keys is None:
         return "the base search raised", None, None
-    hints, seed, want = (None, None, None), 2, base_keys
+    hints, seed, want, plain = (None, None, None), 2, base_keys, False
     if rel == "shift":
         tb = t_shift(base, param)
     elif rel == "perm":
@@ -156,11 +125,17 @@ def relation(base, rel, param, base_keys=None):
         tb, hints = base, tuple(param)
     elif rel == "seed":
         tb, seed = base, int(param)
+    elif rel == "plain":               # called with return_positions_and_quats=False (only index tuples returned)
+        tb, seed, plain = base, int(param), True
     elif rel == "replicate":
         tb = t_replicate(base, param)
     else:
         raise ValueError(rel)
-    res = real_search(tb, hints=hints, seed=seed)
+    if plain:
+        from .c02 import run_plain
+        res = run_plain(fl.mk_structure(tb["elems"], tb["pos"], tb["cell"]), g.mk_pattern(tb), tb["atol"], seed=seed)
+    else:
+        res = real_search(tb, hints=hints, seed=seed)
     got = keys(res)
     if got is None:
         return "the search on the transformed input raised %s (%s)" % (res.get("err"), res.get("msg", "")), tb, res
@@ -211,6 +186,7 @@ def tie(ctx, pairs):
         if core.same(iv, mv) is None:
             ctx.compare("find", inp, iv, mv)
             continue
+        # (findlib's views are order-free and the oracle is keyed by tuple: enumeration order does not matter)
         _, stable = fl.stable_under_atol(ctx.lean, op)
         if not stable:
             ctx.ambiguous += 1
@@ -234,9 +210,9 @@ def tie_resolve(ctx, items):
         ctx.compare("resolve", {"op": "resolve", "pattern": pat, "hints": list(hints)}, {"resolved": want}, {"resolved": got})
 
 
-def gen_base(rng, pname=None, perturb_div=16.0, tight=None, boundary=None):
+def gen_base(rng, pname=None, perturb_div=16.0, tight=None, boundary=None, atol=ATOL):
     for _ in range(50):
-        case = g.random_case(rng, atol=ATOL, pname=pname, perturb_div=perturb_div, tight=tight, boundary=boundary)
+        case = g.random_case(rng, atol=atol, pname=pname, perturb_div=perturb_div, tight=tight, boundary=boundary)
         if case is not None and case["elems"]:
             return case
     return None
@@ -260,11 +236,13 @@ def run(ctx, oracle_only=False, scale=1):
     n_tie = 0 if oracle_only else ctx.n(160, 500)
     # ---- (a) (b) (c) (e) (f) on random validated structures
     for _ in range(ctx.n(220, 1500) * scale):
-        case = gen_base(rng)
+        atol = rng.choice(ATOLS)
+        case = gen_base(rng, atol=atol)
         if case is None:
             ctx.count("generator:rejected")
             continue
-        base = base_of(case)
+        base = base_of(case, atol)
+        ctx.count("atol:%g" % atol)
         ctx.count("cell:" + case["info"]["cell"])
         ctx.count("pattern:" + case["info"]["pattern"])
         bres = real_search(base, seed=1)
@@ -279,18 +257,57 @@ def run(ctx, oracle_only=False, scale=1):
         check_rel(ctx, base, "pattern", pm, bk, pairs, tieit())
         for sd in rng.sample(range(3, 10 ** 6), ctx.n(2, 3)):
             check_rel(ctx, base, "seed", sd, bk, pairs, False)
+        if rng.random() < 0.5:
+            check_rel(ctx, base, "plain", rng.randrange(3, 10 ** 6), bk, pairs, False)
         if widths_ok(base) and len(base["elems"]) <= 30:
             dims = rng.choice([(2, 1, 1), (1, 2, 1), (1, 1, 2)] if ctx.tier == "quick" and scale == 1 else
                               [(2, 1, 1), (1, 2, 1), (1, 1, 2), (2, 2, 1), (1, 2, 2), (2, 1, 2), (2, 2, 2)])
             check_rel(ctx, base, "replicate", list(dims), bk, pairs, len(pairs) < n_tie and rng.random() < 0.15)
+    # ---- known finding C03-supercell-two-images-one-group: narrow cells (D < width < 2 D along one cell vector) in
+    # which two periodic images of one atom both complete the pattern with the same partner.  Only the COUNT mismatch
+    # of the supercell along that vector, with the reported supercell groups being exactly the groups an independent
+    # enumeration finds in an independently built supercell, is attributed to the finding (exactly its tag).
+    n_two, made = ctx.n(3, 20), 0
+    while made < n_two:
+        case = g.two_image_case(rng, atol=ATOL)
+        if case is None:
+            ctx.count("generator:rejected")
+            continue
+        made += 1
+        base = base_of(case)
+        dims = [1, 1, 1]
+        dims[case["axis"]] = 2
+        bk = keys(real_search(base, seed=1))
+        inp = inp_of(base, "replicate", dims)
+        ctx.case(inp, nontrivial=True)
+        ctx.count("stream:two-images-one-group")
+        if bk is None:
+            ctx.fail("the search raised", inp, tags=["base"])
+            continue
+        bad, tb, res = relation(base, "replicate", dims, bk)
+        if bad:
+            known = False
+            if bad.startswith("supercell %s reports" % dims) and res is not None and "ok" in res:
+                se, sp, sc = g.replicate_indep(base["elems"], base["pos"], base["cell"], dims)
+                ins, amb = g.brute_occurrences(se, sp, sc, base["pattern"]["elems"], base["pattern"]["pos"], base["atol"])
+                known = not amb and sorted(ins) == keys(res) and bk == [(0, 1)]
+            ctx.fail(bad, inp, required="count(supercell) = a*b*c * count(unit cell)",
+                     tags=[TWO_IMAGES_TAG] if known else ["rel:replicate"])
+        # the relation along the other cell vectors does hold
+        for ax in range(3):
+            if ax != case["axis"]:
+                d2 = [1, 1, 1]
+                d2[ax] = 2
+                check_rel(ctx, base, "replicate", d2, bk, pairs, len(pairs) < n_tie and rng.random() < 0.3)
     # ---- (d) hints: every valid triple of every pattern with <= 4 atoms
-    for rep in range(ctx.n(2, 5) * scale):
+    for rep in range(ctx.n(1, 5) * scale):
         for pname in HINT_PATTERNS:
-            case = gen_base(rng, pname=pname, perturb_div=40.0, tight=False)
+            hatol = rng.choice(ATOLS)
+            case = gen_base(rng, pname=pname, perturb_div=40.0, tight=False, atol=hatol)
             if case is None:
                 ctx.count("generator:rejected")
                 continue
-            base = base_of(case)
+            base = base_of(case, hatol)
             bres = real_search(base, seed=1)
             bk = keys(bres)
             if bk is None:
